@@ -10,6 +10,11 @@ LIN = 'semantics::linearizability::LinearizabilityTester'
 SC = 'semantics::sequential_consistency::SequentialConsistencyTester'
 
 
+def noref_(v):
+    from checkers import noref
+    return noref(v)
+
+
 def tester_fn(F, ty, name):
     bs = [x for x in F.bodies.values() if x.kind != 'Closure' and x.path.endswith('::' + name) and
           (x.path.startswith(ty + '::<') or x.path.startswith('<' + ty + '<'))]
@@ -452,3 +457,90 @@ def search_skeleton(ctx, F, ty, rule, lin):
                       'case differ (%s vs %s): the two cases disagree about which peer operations must already '
                       'have been serialized' % (short, dict(s0 - s1), dict(s1 - s0)))
     return b
+
+
+def snapshot_covers_every_peer(ctx, F, ty, rule):
+    """on_invoke records, for the invoked operation, the last completed operation of EVERY other thread that has
+    one: which peers are skipped does not depend on what is in flight (a peer that is mid-operation still has
+    completed operations that precede the new one in real time)."""
+    from taint import Taint
+    short = ty.split('::')[-1]
+    b = tester_fn(F, ty, 'on_invoke')
+    nb = F.norm(b)
+    ctx.touched(b)
+    ITER = ('BTreeMap::iter', 'BTreeMap::keys', 'BTreeMap::values', 'IntoIterator::into_iter', 'Iterator::enumerate',
+            'Iterator::by_ref', 'Deref::deref', 'BTreeMap::iter_mut', 'BTreeMap::range', 'Iterator::map',
+            'Iterator::filter', 'Iterator::filter_map', 'Iterator::rev', 'Iterator::peekable')
+    heads = []
+    for c in nb.calls_to('Iterator::next'):
+        if nb.in_cycle(c.bb) and c.args and 'history_by_thread' in repr(nb.trace(noref_(nb.val(c.args[0])), ITER)):
+            heads.append(c)
+    if len(heads) != 1:
+        raise AnchorMissing('%s::on_invoke: expected one walk over history_by_thread, found %d' % (short, len(heads)))
+    h = heads[0]
+    some = nb.branch(h, 'Some')
+    body = nb.reach([e[1] for e in some], cut_blocks=[h.bb])
+    body = set(x for x in body if h.bb in nb.reach([x]))
+    seeds = {}
+    for (i, si, st) in nb.assigns(lambda st: st['rv']['k'] in ('ref', 'use')):
+        pl = st['rv']['place'] if st['rv']['k'] == 'ref' else st['rv']['op'].get('place')
+        if pl and any(isinstance(e, dict) and e.get('name') == 'in_flight_by_thread' for e in pl['p']):
+            seeds.setdefault(st['lhs']['l'], set()).add('IF')
+    if not seeds:
+        raise AnchorMissing('%s::on_invoke: no access to in_flight_by_thread found' % short)
+    t = Taint(nb, seeds)
+    bad = []
+    for c in nb.calls:
+        if c.bb in body and c is not h:
+            for a in c.args:
+                if a['k'] in ('copy', 'move') and 'IF' in t.seen(a['place']['l'], c.bb):
+                    bad.append('%s@%s' % (c.short.split('::')[-1], c.span))
+    # ... and a switch of the walk does not test a flag computed from it either
+    for sw in nb.switches:
+        d = nb.blocks[sw.bb]['term'].get('discr', {})
+        if sw.bb in body and d.get('k') in ('copy', 'move') and 'IF' in t.seen(d['place']['l'], sw.bb):
+            bad.append('test@bb%d' % sw.bb)
+    ctx.check(not bad, rule, 'snapshot-covers-every-peer', b,
+              good='which peers enter the "last completed operation" snapshot does not depend on the operations in '
+                   'flight',
+              bad='%s::on_invoke consults the in-flight operations inside the walk that snapshots the peers\' last '
+                  'completed operations (%s): a peer that is mid-operation is left out although its completed '
+                  'operations precede the new one in real time - the search may then order the new operation before '
+                  'them and accept a history that is not linearizable' % (short, sorted(set(bad))), span=h.span)
+
+
+def invret_is_invoke_then_return(ctx, F, ty, rule):
+    """on_invret (the tester's own, or the trait default when it has none) is on_invoke followed by on_return: it
+    takes no road around the well-formedness tests the two make (operation already in flight, history invalid)."""
+    short = ty.split('::')[-1]
+    own = [x for x in F.bodies.values() if x.kind != 'Closure' and x.path.endswith('::on_invret') and
+           (x.path.startswith(ty + '::<') or x.path.startswith('<' + ty + '<'))]
+    dflt = [x for x in F.bodies.values() if x.kind != 'Closure' and
+            x.path.endswith('ConsistencyTester::on_invret') and not x.path.startswith('<')]
+    bs = own or dflt
+    if len(bs) != 1:
+        raise AnchorMissing('%s::on_invret or the default ConsistencyTester::on_invret (found %d)' % (short, len(bs)))
+    b = bs[0]
+    nb = F.norm(b)
+    ctx.touched(b)
+    inv = [c for c in nb.calls if c.short.endswith('::on_invoke')]
+    ret = [c for c in nb.calls if c.short.endswith('::on_return')]
+    ok = bool(inv) and bool(ret)
+    if ok:
+        r0 = nb.reach([0], cut_blocks=[c.bb for c in inv])
+        ok = not any(x in r0 for x in nb.returns)
+    if ok:
+        cont = []
+        for c in inv:
+            cont += nb.branch(c, 'Ok', through=('Try::branch',)) or nb.branch(c, 'Continue', through=('Try::branch',))
+        if not cont:
+            cont = [(c.bb, c.target) for c in inv]
+            # without a test of on_invoke's verdict the return half runs unconditionally: still both halves
+        r1 = nb.reach([e[1] for e in cont], cut_blocks=[c.bb for c in ret])
+        ok = not any(x in r1 for x in nb.returns)
+    ctx.check(ok, rule, 'invret-is-invoke-then-return', b,
+              good='on_invret (%s) goes through on_invoke and, when that accepted, through on_return'
+                   % ('own' if own else 'trait default'),
+              bad='%s: on_invret records an operation without going through on_invoke and on_return: their '
+                  'well-formedness tests (operation already in flight for the thread, history already invalid) are '
+                  'bypassed, so an ill-formed history is accepted and a consistency verdict is given for it' % short)
